@@ -36,7 +36,7 @@ class Contract(object):
         self.canary = canary
         self.trusted = list(trusted)
         self.leading_asserts = leading_asserts  # "oblige" | "requires"
-        self.globals = dict(globals or {})       # name -> type string (module globals read by the function)
+        self.globals = list(globals or [])   # names of module globals read by the function (declared via module_global)
         self.fresh_result = fresh_result
         self.note = note
         self.ghost = ghost or {}
@@ -90,7 +90,6 @@ class Lemma(object):
         self.assumes = list(assumes)
         self.goal = goal
         self.axioms = list(axioms)
-        self.lemmas_used = list(lemmas_used)
         self.trusted = list(trusted)
         self.note = note
         self.canary = canary
